@@ -162,6 +162,11 @@ impl Sphere {
     ///
     /// See <https://mathworld.wolfram.com/Circumsphere.html>.
     pub fn from_four_points(a: DVec3, b: DVec3, c: DVec3, d: DVec3) -> Sphere {
+        // Work in coordinates relative to `a`: the determinants below suffer from
+        // catastrophic cancellation when the points are close together compared
+        // to their distance from the origin.
+        let origin = a;
+        let (a, b, c, d) = (DVec3::ZERO, b - origin, c - origin, d - origin);
         let x = DVec4 {
             x: a.x,
             y: b.x,
@@ -194,7 +199,8 @@ impl Sphere {
             x: d_x,
             y: d_y,
             z: d_z,
-        } * one_over_2a;
+        } * one_over_2a
+            + origin;
         Self::new(center, radius)
     }
 
